@@ -78,6 +78,11 @@ Theorem C08_ties_line : forall mu c b,
 Proof. exact ballot_line_read. Qed.
 Print Assumptions C08_ties_line.
 
+(* ... and also for the tuple with zero categories, which the code accepts ("<mult>: " is written, read back as ()) *)
+Theorem C08_ties_line_any : forall mu b, ballot_of_line (ballot_line mu b) = Ok (mult_of mu b, b).
+Proof. exact ballot_line_read_any. Qed.
+Print Assumptions C08_ties_line_any.
+
 (* strip(", ") is harmless: it removes exactly the trailing separator, and what is left starts with a digit or
    an opening brace and ends with a digit or a closing brace *)
 Theorem C08_strip_harmless : forall c b,
@@ -118,9 +123,11 @@ Proof.
   - split; [repeat constructor; reflexivity|repeat constructor; simpl; intuition discriminate].
   - split; [repeat constructor; reflexivity|repeat constructor; simpl; intuition discriminate].
 Qed.
+Print Assumptions C08_example_wf.
 
 Example C08_example_roundtrip :
   cat_parse false false (meta0 (lit "cat")) (readlines (cat_write ex_inst)) = Ok (sorted_view ex_inst)
   /\ map (mult_of (c_mult ex_inst)) (c_prefs (sorted_view ex_inst)) = [5; 5; 2; 2; 2; 1]%N
   /\ c_prefs (sorted_view ex_inst) <> c_prefs ex_inst.
 Proof. split; [vm_compute; reflexivity|split; [vm_compute; reflexivity|vm_compute; discriminate]]. Qed.
+Print Assumptions C08_example_roundtrip.
